@@ -70,6 +70,16 @@ struct ledger_t {
 
 inline ledger_t& ledger() { static ledger_t l; return l; }
 
+// -DVERIF_TRACKED_NOEXCEPT_MOVE: the element's moves are noexcept and cannot fail, its copies can (like std::string or
+// std::vector): code that declares itself noexcept on the strength of the move but copies is then exposed
+#ifdef VERIF_TRACKED_NOEXCEPT_MOVE
+#define VERIF_MOVE_NOEXCEPT noexcept
+#define VERIF_MOVE_HIT() false
+#else
+#define VERIF_MOVE_NOEXCEPT noexcept(false)
+#define VERIF_MOVE_HIT() ledger().hit()
+#endif
+
 class tracked {
 	int v_ = 0;
 	static void ev(char const* what, char const* how, void const* self, void const* src, bool creating) {
@@ -85,9 +95,9 @@ class tracked {
 	tracked() { if(ledger().hit()) { throw injected{}; } ev("Ctor", "default", this, nullptr, true); }
 	explicit tracked(int v) : v_{v} { ev("Ctor", "value", this, nullptr, true); }
 	tracked(tracked const& o) : v_{o.v_} { if(ledger().hit()) { throw injected{}; } ev("Ctor", "copy", this, &o, true); }
-	tracked(tracked&& o) noexcept(false) : v_{o.v_} { if(ledger().hit()) { throw injected{}; } ev("Ctor", "move", this, &o, true); o.v_ = -2; }
+	tracked(tracked&& o) VERIF_MOVE_NOEXCEPT : v_{o.v_} { if(VERIF_MOVE_HIT()) { throw injected{}; } ev("Ctor", "move", this, &o, true); o.v_ = -2; }
 	auto operator=(tracked const& o) -> tracked& { if(ledger().hit()) { throw injected{}; } ev("Assign", "copy", this, &o, false); v_ = o.v_; return *this; }
-	auto operator=(tracked&& o) noexcept(false) -> tracked& { if(ledger().hit()) { throw injected{}; } ev("Assign", "move", this, &o, false); v_ = o.v_; if(&o != this) { o.v_ = -2; } return *this; }
+	auto operator=(tracked&& o) VERIF_MOVE_NOEXCEPT -> tracked& { if(VERIF_MOVE_HIT()) { throw injected{}; } ev("Assign", "move", this, &o, false); v_ = o.v_; if(&o != this) { o.v_ = -2; } return *this; }
 	~tracked() { ev("Dtor", "-", this, nullptr, false); ledger().forget_stack(this); }
 	int value() const { return v_; }
 	friend bool operator==(tracked const& a, tracked const& b) { return a.v_ == b.v_; }
